@@ -19,14 +19,26 @@ E  every layout (bounded, see RULE) over the fixed skeleton
        <idf>/examples/pa/apps/unit/main    directory of that project  <idf>/examples/pa/nested/inner    project nested in pa/nested
        <idf>/examples/pa/main/nested       directory of pa (same base name as the project pa/nested)
 
+   plus the TWIN skeleton (project directories that bear the SAME base name under different parents, as ESP-IDF's many
+   `test_apps` directories):
+
+       <idf>/examples/alpha               project                     <idf>/examples/beta              project
+       <idf>/examples/alpha/test_apps     project nested in alpha     <idf>/examples/beta/test_apps    project nested in beta
+       <idf>/examples/grp/test_apps       project below a plain directory
+
    of sdkconfig.rename files (old names X and/or Y) and sdkconfig.defaults-style files (assigning CONFIG_X and/or
    CONFIG_Y), every non-empty ordered selection of the defaults files as the argument list, invocation variants
    (IDF_PATH from the environment / cwd fallback, explicitly passed rename files, --includes directories), driven through
    _prepare_deprecated_options + check_deprecated_options exactly as kconfcheck.core.main does.
+   SPELL family: layouts over the basic skeleton, each checked under every SPELLING of IDF_PATH that denotes the IDF root:
+   plain, trailing slash, doubled slash, `<idf>/components/..`, `<parent>/./idf/.`, relative (`idf` from the parent, `.` from
+   the root, `../..` from examples/pa), a symbolic link to the root with the files named through the link, and the link
+   with the files named by their real path.
 
 O1 per-file verdict == memo-free specification (spec_verdict) written from the property statement.
 O2 within one (layout, variant) the verdict of a file is the same for every order / subset of the argument list
    (the per-invocation project-root cache and the lazily built per-project sets are the suspects).
+O4 (SPELL family) every spelling of IDF_PATH gives every file the verdict of the plain spelling (which is under O1).
 O3 the list of files to check returned by the prepare step contains no rename file and every requested defaults file.
 conformance: a handful of layouts run through the real CLI (python -m kconfcheck --check deprecated) in a subprocess;
    the verdict lines must agree with what the in-process driver observed.
@@ -57,6 +69,16 @@ RULE = (
     "pa/apps/grp/deep (project, 3 levels below pa)}: quick one-option r<=2, d<=2 plus two-option r<=2, d=1 (r=2: every rename file names one "
     "option), root not a project; thorough one-option r<=3, d<=2 and (r<=1, d=3) plus two-option r+d<=3 (r+d=3: every file names one "
     "option), root is / is not a project; --includes for this family: none / pa/apps / pa/apps/unit [thorough: pa/nested, pa/apps/grp, pa]. "
+    "SPELL family (IDF_PATH spelled differently): layouts over the 7 basic places, root is / is not a project; quick one-option r<=2, d<=2; "
+    "thorough one-option r<=3, d<=2 plus two-option r+d<=3 (r+d=3: every file names one option); spellings: plain | trailing slash | doubled "
+    "slash | <idf>/components/.. | symbolic link with the files named through it | symbolic link with the files named by their real path | "
+    "relative from the parent directory [thorough: <parent>/./idf/. , `.` from the root, `../..` from examples/pa; and all of them again with "
+    "--includes examples/pa on singletons + forward + reversed]; every non-empty ordered selection per spelling; the per-file verdict must "
+    "equal the one under the plain spelling (O4). "
+    "TWIN family (equally named project directories): the basic bounds over the 5 places {alpha, alpha/test_apps, beta, beta/test_apps, "
+    "grp/test_apps} (all five are projects; three share the base name test_apps), root is / is not a project, variants IDF_PATH from the "
+    "environment / cwd fallback [thorough: --includes examples/alpha/test_apps, examples/grp; each rename file passed explicitly], EVERY "
+    "non-empty ordered selection of the defaults files (so the verdict of a file in a run with others is compared with its verdict alone). "
     "Per layout: invocation variants (IDF_PATH from the environment / cwd fallback; explicit rename files none / each / all; "
     "--includes none / examples / examples/pa [thorough: root, examples/common, examples/pa/nested, two dirs]) x EVERY non-empty "
     "ordered selection of the defaults files as argument list (variants with a single explicit rename file, which only changes "
@@ -70,6 +92,11 @@ ASSUMPTIONS = [
     "readings disagree; there the verdict oracle is skipped (counter ambiguous_root_project), order-independence is still checked",
     "`# CONFIG_X is not set` lines are not generated (the statement does not say whether they 'assign')",
     "no project() above the IDF root (scratch tree on tmpfs); --exclude-submodules not used",
+    "IDF_PATH names a directory; two values that denote the same directory (lexically different spellings, a relative path, a symbolic "
+    "link) are the same IDF root in the sense of the statement. Under a spelling other than the plain one the specification oracle O1 is "
+    "not applied a second time; the verdicts are compared with those of the plain spelling (O4), also for the files of the orphan "
+    "directory whose O1 verdict is ambiguous. File arguments are made absolute by main() before the checker sees them; their own spelling "
+    "is not varied (only: through the link / by real path)",
 ]
 
 PLACES = ("", "components/c", "examples/pa", "examples/pa/main", "examples/pa/nested", "examples/pb", "examples/common",
@@ -90,8 +117,8 @@ PROJECTS = ("examples/pa", "examples/pa/nested", "examples/pb", "examples/pa/nes
             "examples/alpha", "examples/alpha/test_apps", "examples/beta", "examples/beta/test_apps", "examples/grp/test_apps")
 TWIN_PLACES = ("examples/alpha", "examples/alpha/test_apps", "examples/beta", "examples/beta/test_apps", "examples/grp/test_apps")
 # spellings of IDF_PATH that all denote the IDF root (the file arguments are spelled through the real path, except "link+files")
-SPELLINGS = ("slash", "dslash", "dotdot", "dot", "rel_parent", "rel_dot", "rel_up", "link+files")
-SPELLINGS_QUICK = ("slash", "dslash", "dotdot", "rel_parent", "link+files")
+SPELLINGS = ("slash", "dslash", "dotdot", "dot", "rel_parent", "rel_dot", "rel_up", "link+files", "link")
+SPELLINGS_QUICK = ("slash", "dslash", "dotdot", "rel_parent", "link+files", "link")
 DEEP_PLACES = ("examples/pa", "examples/pa/main", "examples/pa/main/nested", "examples/pa/nested", "examples/pa/nested/inner",
                "examples/pa/apps", "examples/pa/apps/unit", "examples/pa/apps/unit/main", "examples/pa/apps/grp", "examples/pa/apps/grp/deep")
 DEFAULTS_NAME = {
@@ -520,6 +547,8 @@ def spell_idf_path(base: str, how: str) -> Tuple[str, Optional[str], str]:
     if how == "link+files":  # a symbolic link to the IDF root; the files are named through the same link
         link = os.path.join(parent_dir, "idf_link")
         return link, None, link
+    if how == "link":  # the link in IDF_PATH only: the files are named by their real path (what os.getcwd() gives a hook)
+        return os.path.join(parent_dir, "idf_link"), None, base
     raise ValueError(how)
 
 
@@ -599,6 +628,12 @@ def relation(layout: dict, fplace: str, opt_places: List[str]) -> str:
     return "+".join(sorted(rels)) or "none"
 
 
+def file_scope(fplace: str) -> str:
+    if nearest_project(fplace, PROJECTS) is not None:
+        return "project"
+    return "idf_root_dir" if fplace == "" else "component" if under(fplace, "components") else "orphan_dir"
+
+
 def variant_kind(variant: tuple) -> str:
     via, explicit, includes = variant
     return f"{via}{'+explicit' if explicit else ''}{'+includes' if includes else ''}"
@@ -647,7 +682,9 @@ def check_group(layout: dict, variant: tuple, order_list: List[Tuple[str, ...]],
             # O1
             want_a = spec_verdict(layout, variant, fplace, literal_root=False)
             want_b = spec_verdict(layout, variant, fplace, literal_root=True)
-            if want_a != want_b and nearest_project(fplace, PROJECTS) is None and fplace not in ("", "components/c"):
+            if via not in ("env", "cwd"):
+                pass  # another spelling of IDF_PATH: compared with the plain spelling (O4), which is itself under O1
+            elif want_a != want_b and nearest_project(fplace, PROJECTS) is None and fplace not in ("", "components/c"):
                 # the file itself lives in the orphan directory under a root that calls project(): see ASSUMPTIONS
                 r.count("ambiguous_root_project")
                 r.skipped += 1
@@ -702,10 +739,9 @@ def compare_spellings(layout: dict, plain: tuple, variant: tuple, order_list: Li
                 "kind": "idf_path_spelling_dependence",
                 "site": "check_deprecated_options.py:_prepare_deprecated_options",
                 "spelling": variant[0],
-                "file_at": fplace,
+                "file_in": file_scope(fplace),
                 "became": word[verd.get(fplace)].replace(" ", "_"),
                 "root_is_project": layout["rootproj"],
-                "includes": bool(variant[2]),
             },
             f"file at {fplace!r}: {word[plain_verd.get(fplace)]} with IDF_PATH=<idf>, {word[verd.get(fplace)]} with the spelling {variant[0]!r} "
             f"({spell_idf_path('<parent>/idf', variant[0][4:])[0]}); rename files {layout['renames']}, defaults {layout['defaults']}",
